@@ -200,6 +200,7 @@ MANIFEST_META = {
     "level_text": "Generated operands (any subset/order of blades, d<=8 incl. the lazily tabulated algebras, custom bases) are "
                   "combined with +, -, unary -, the three involutions and grade selection and compared blade by blade with the "
                   "definitions; involutions are applied twice and checked as (anti)automorphisms of kingdon's own product "
-                  "with indeterminate coefficients.",
+                  "with indeterminate coefficients."
+                  " Symbolic operands are combined and the result called with keyword values.",
     "level_note": "Trusted: kv.refops closed-form signs, kv.ring.Q, Hypothesis. Sampling only; laws limited to d<=4.",
 }
